@@ -198,6 +198,10 @@ impl Type {
                         write!(buffer, ", ").unwrap();
                     }
                 }
+                if t.elements.len() == 1 {
+                    // `(T)` is `T` in parentheses: a one-element tuple needs a trailing comma.
+                    write!(buffer, ",").unwrap();
+                }
                 write!(buffer, ")").unwrap();
             }
             Type::ScalarPrimitive(s) => {
